@@ -38,8 +38,12 @@ ASSUMPTIONS = [
     'parse_string(text), c, None, ne); per module the check asserts that a second parse_string(text) yields a '
     'dictionary with the same canonical form and that a literal compile_string(text, ...) has the same signature '
     '(parse determinism is what allows parsing once instead of 16 times).',
-    'States are snapshotted with pickle (keeps dict order and aliasing) and identified by an order- and '
-    'aliasing-aware serialisation, which is finer than "repr with keys sorted"; the coarser count is reported too.',
+    'States are identified by an order- and aliasing-aware serialisation of the dictionary, which is finer than '
+    '"repr with keys sorted"; the coarser count is reported too.  Every transition is executed by replaying the '
+    'history that first reached the state (breadth-first, so a shortest one) plus the operation on ONE dictionary '
+    'object, so state the library keeps about the object (identity-keyed memo, module-level slot) is carried '
+    'through the history as it is for a caller; other histories reaching the same dictionary state are not '
+    'replayed.',
     'Behaviour is observed on a small boundary domain per type (<= 8 values from mc.values.dom, base value first) '
     'and on the decode of the bytes the encoder produced; other byte strings are not decoded.',
     'L1 modules hold 12 top-level types over the reduced member alphabet Sigma_r; hand-written modules carry '
@@ -246,6 +250,7 @@ def work(unit):
     res.count('states', ex.states)
     res.count('states_keys_sorted', ex.states_sorted)
     res.count('transitions', ex.transitions)
+    res.count('history_steps_replayed_on_the_same_object', ex.replayed_steps)
     res.count('evaluations', ex.transitions)
     res.count('fixpoint_reached' if ex.fixpoint else 'depth_cap_hit')
     res.count('max_new_state_depth_%d' % ex.depth)
